@@ -51,11 +51,16 @@ print(len(params), "parameter lists")
 print(len(calls), "callee lists")
 # fields of the library's own structs / enum variants (name, type): a renamed private field is found again by its type
 adts = {}
+adts_alt = {}
 for cfg in ("default", "explanations", "checks", "checks_explanations"):
     crate = mir.Crate(facts.load(cfg, "slotted_egraphs"), use_anchors=False)
     for path, a in crate.adts.items():
         if not (a.get("file") or "").startswith("src/"):
             continue
-        adts.setdefault(path, [[v["name"], [[f["name"], f["ty"]] for f in v["fields"]]] for v in a["variants"]])
+        cur_ = [[v["name"], [[f["name"], f["ty"]] for f in v["fields"]]] for v in a["variants"]]
+        if adts.setdefault(path, cur_) != cur_:
+            adts_alt.setdefault(path, cur_)      # (field types that depend on the explanations feature: `()` vs the proof types)
 json.dump(adts, open("/verif/anchors_adts.json", "w"), indent=0, sort_keys=True)
+json.dump(adts_alt, open("/verif/anchors_adts_alt.json", "w"), indent=0, sort_keys=True)
+print(len(adts_alt), "adts with other field types under another configuration")
 print(len(adts), "adts")
